@@ -661,23 +661,44 @@ example : RefSt.Proto {} [.push [1], .push [2], .push [3], .push [4], .sync, .pr
 -- the hypothesis of the three theorems is satisfiable by that history: it obeys the chain's
 -- discipline, the first compaction really passes the cutoff position in `rewind_rm_pos`, and
 -- the rewind really re-adds it
-example : Book.Ok {} cutoffShape ∧
+theorem cutoffShape_ok : Book.Ok {} cutoffShape ∧
     (Book.ops {} cutoffShape)[8]? = some (.compact 3 [4]) ∧
-    (Book.ops {} cutoffShape)[9]? = some (.rewind 4 [4]) := by
+    (Book.ops {} cutoffShape)[9]? = some (.rewind 4 [4]) ∧
+    3 ∈ (Book.run {} cutoffShape).r.cur.U := by
   have hb : ∀ n, n ≤ 10 → mmr n + 64 < 2 ^ 64 := fun n hn => by
     have := Pmmr.Co.mmr_le_two_mul n; omega
   have m0 : mmr 0 = 0 := by simp [mmr, popcount]
   have m1 : mmr 1 = 1 := mmr_vals.1
   have m2 : mmr 2 = 3 := mmr_vals.2.1
   have m3 : mmr 3 = 4 := by simp [mmr, popcount]
-  refine ⟨?_, ?_, ?_⟩
+  refine ⟨?_, ?_, ?_, ?_⟩
   · simp only [cutoffShape, Book.Ok, Book.ok, Book.step, Book.emit, RefSt.step, List.length_append,
-      List.length_cons, List.length_nil, List.take, and_true, true_and]
+      List.length_cons, List.length_nil, and_true, true_and]
     refine ⟨hb _ (by omega), hb _ (by omega), hb _ (by omega), hb _ (by omega), ?_⟩
-    simp [spentAfter, rmOf, m0, m1, m2, m3]
+    simp [m0, m1, m2, m3]
     refine ⟨hb _ (by omega), hb _ (by omega)⟩
   · simp [cutoffShape, Book.ops, Book.step, Book.emit, RefSt.step, spentAfter, rmOf, m0, m1, m2, m3]
   · simp [cutoffShape, Book.ops, Book.step, Book.emit, RefSt.step, spentAfter, rmOf, m0, m1, m2, m3]
+  · simp [cutoffShape, Book.run, Book.step, Book.emit, RefSt.step, spentAfter, rmOf, m0, m1, m2, m3]
 
+-- … and the conclusion for it: the leaf at the cutoff position (position 3), protected by the
+-- first compaction, un-spent by the rewind, its sibling spent and compacted, is not covered by
+-- the prune list of the store, and the store still answers like the unpruned reference for it
+example (hf : HashFn Bytes Nat) :
+    ((Book.ops {} cutoffShape).foldl (bstep (fun _ => none) hf) ({} : PM Nat)).b.pruneList.isPruned 3 = false :=
+  (protected_never_pruned (fun _ => none) hf cutoffShape cutoffShape_ok.1).1 3 cutoffShape_ok.2.2.2
+
+example (hf : HashFn Bytes Nat) :
+    let p := (Book.ops {} cutoffShape).foldl (bstep (fun _ => none) hf) ({} : PM Nat)
+    let r := (Book.ops {} cutoffShape).foldl RefSt.step {}
+    p.size = mmr r.cur.es.length ∧ PM.root hf p = Pmmr.root hf (Pmmr.Co.allHashes hf (leafFn r.cur.es) r.cur.es.length) :=
+  let h := history_preserves_reference (fun _ => none) hf _ (chain_bookkeeping_conforms cutoffShape cutoffShape_ok.1)
+  ⟨h.1, h.2.2.1⟩
+
+-- a unit with a variable-size data file: whatever is appended / rewound, the durable state stays
+example (v : VarFile) (b : Backend Nat) (ops : List (Backend.Op Nat)) (h : b.dataFile = .var v) :
+    ((ops.foldl Backend.Op.apply b).discard.onDisk).2.1 = ([v.disk], v.sizeFile.disk) := by
+  rw [(unit_disk_untouched b ops).2]
+  simp [Backend.onDisk, h, DFile.onDisk]
 
 end GV.Props.C08
